@@ -3289,7 +3289,7 @@ fn write_yaml_string_to_json(
     match s {
         YamlString::DoubleQuoted { text, start } => {
             let end = YamlString::find_double_quote_end(text, *start);
-            let bytes = &text[*start + 1..end - 1]; // Strip quotes
+            let bytes = &text[*start + 1..(end - 1).max(*start + 1)]; // Strip quotes
 
             // Check if we need decoding (has escapes or newlines)
             if !bytes.contains(&b'\\') && !bytes.contains(&b'\n') && !bytes.contains(&b'\r') {
@@ -3304,7 +3304,7 @@ fn write_yaml_string_to_json(
         }
         YamlString::SingleQuoted { text, start } => {
             let end = YamlString::find_single_quote_end(text, *start);
-            let bytes = &text[*start + 1..end - 1]; // Strip quotes
+            let bytes = &text[*start + 1..(end - 1).max(*start + 1)]; // Strip quotes
 
             // Check if we need decoding (has '' or newlines)
             if !bytes.contains(&b'\'') && !bytes.contains(&b'\n') && !bytes.contains(&b'\r') {
@@ -4008,7 +4008,7 @@ fn stream_yaml_string_to_json<Out: core::fmt::Write>(
     match s {
         YamlString::DoubleQuoted { text, start } => {
             let end = YamlString::find_double_quote_end(text, *start);
-            let bytes = &text[*start + 1..end - 1];
+            let bytes = &text[*start + 1..(end - 1).max(*start + 1)];
 
             if !bytes.contains(&b'\\') && !bytes.contains(&b'\n') && !bytes.contains(&b'\r') {
                 let s = core::str::from_utf8(bytes).map_err(|_| YamlStringError::InvalidUtf8)?;
@@ -4020,7 +4020,7 @@ fn stream_yaml_string_to_json<Out: core::fmt::Write>(
         }
         YamlString::SingleQuoted { text, start } => {
             let end = YamlString::find_single_quote_end(text, *start);
-            let bytes = &text[*start + 1..end - 1];
+            let bytes = &text[*start + 1..(end - 1).max(*start + 1)];
 
             if !bytes.contains(&b'\'') && !bytes.contains(&b'\n') && !bytes.contains(&b'\r') {
                 let s = core::str::from_utf8(bytes).map_err(|_| YamlStringError::InvalidUtf8)?;
